@@ -9,7 +9,6 @@ from typing import TYPE_CHECKING
 
 # Third Party Imports
 from numpy import array
-from numpy import max as np_max
 from numpy import ones_like, spacing, zeros
 from scipy.integrate import solve_ivp
 
@@ -348,27 +347,35 @@ class Celestial(Dynamics, metaclass=ABCMeta):
                 states = states[..., -1]
 
             # Properly reshape states
-            states = states.reshape((*state_shape, n_t)).copy()
+            # [NOTE]: no state is returned at all if an event stops the integration before the
+            #   next one of `times` is reached.
+            states = array(states, dtype=float).reshape((*state_shape, n_t)).copy()
 
             # Retrieve time when integration stopped, should auto-exit the loop if fully-integrated
-            if array(solution.t_events).size == 0:
+            # [NOTE]: each event has its own (possibly empty) array of times, so they are checked
+            #   one by one rather than as a single (ragged) array.
+            occurred = [
+                (t_event[-1], y_event[-1])
+                for t_event, y_event in zip(solution.t_events or [], solution.y_events or [])
+                if t_event.size
+            ]
+            if not occurred:
                 current_time = solution.t[-1]
                 # print(states.shape, states[...,-1].shape, states[::,-1].shape)
                 current_state = states[..., -1]  # .reshape(state_shape)
             else:
                 # Retrieve the current state & update the initial state for next loop
-                current_time = np_max(solution.t_events)
+                current_time, stop_state = max(occurred, key=lambda event: event[0])
                 current_state = self._applyEvents(
                     t_events=solution.t_events,
                     events=events,
-                    # [TODO]: Make this more robust. What about multiple events?
-                    current_state=solution.y_events[0].reshape(state_shape),
+                    current_state=stop_state.reshape(state_shape),
                 )
                 events = self._dropAppliedImpulses(solution.t_events, events)
 
                 # Properly copies updated state back into full state vector for when
                 # an event occurs on a `times`
-                if current_time == solution.t[-1]:
+                if n_t and current_time == solution.t[-1]:
                     states[..., -1] = current_state.copy()
 
             # [TODO]: This may not be needed?
